@@ -10,7 +10,7 @@ ID = 'C15'
 def config(tier):
     return {
         'level': 'fault_enumeration',
-        'cases': 70 if tier == 'quick' else 2500,
+        'cases': 300 if tier == 'quick' else 2500,
         'budget_s': 55 if tier == 'quick' else 570,
         'floors': {'cases': 30, 'crash_states': 800, 'reruns_completed': 600,
                    'restore_scenarios': 8, 'empty_scenarios': 8,
